@@ -155,6 +155,63 @@ func (h *H) totality(root *vlib.Rand) {
 	}
 }
 
+// literals: one minimal hand-typed message per forbidden feature and decoder.
+func (h *H) literals() {
+	fp20 := defaultBridgeFP
+	for i, c := range []struct{ msg, feat, data string }{
+		{nPollReq, "version", `{"Sid":"s","Version":"2.0"}`},
+		{nPollReq, "version", `{"Sid":"s"}`},
+		{nPollReq, "missing-sid", `{"Version":"1.0"}`},
+		{nPollReq, "nat-outside-names", `{"Sid":"s","Version":"1.2","NAT":"bogus"}`},
+		{nPollResp, "missing-offer", `{"Status":"client match"}`},
+		{nPollResp, "nat-outside-names", `{"Status":"client match","Offer":"x","NAT":"bogus"}`},
+		{nAnsReq, "version", `{"Version":"2.0","Sid":"s","Answer":"a"}`},
+		{nAnsReq, "missing-sid", `{"Version":"1.0","Answer":"a"}`},
+		{nAnsReq, "missing-answer", `{"Version":"1.0","Sid":"s"}`},
+		{nCliReq, "version", "2.0\n{\"offer\":\"x\"}"},
+		{nCliReq, "version", `{"offer":"x"}`},
+		{nCliReq, "missing-offer", "1.0\n{}"},
+		{nCliReq, "nat-outside-names", "1.0\n{\"offer\":\"x\",\"nat\":\"bogus\"}"},
+		{nCliReq, "fingerprint-length", "1.0\n{\"offer\":\"x\",\"fingerprint\":\"" + fp20[:38] + "\"}"},
+		{nCliReq, "fingerprint-non-hex", "1.0\n{\"offer\":\"x\",\"fingerprint\":\"" + fp20[:39] + "g\"}"},
+		{nCliResp, "neither-answer-nor-error", `{}`},
+	} {
+		data := []byte(c.data)
+		rc := mkrec(fmt.Sprintf("literal/%d", i), c.msg, data, "literal witness: "+c.feat)
+		var err error
+		var ok bool
+		switch c.msg {
+		case nPollReq:
+			var o pollReqOut
+			o, ok = h.decPollReq("handwritten", rc, data)
+			err = o.err
+		case nPollResp:
+			if c.feat == "nat-outside-names" && !strictPollResponseNAT {
+				continue
+			}
+			var o pollRespOut
+			o, ok = h.decPollResp("handwritten", rc, data)
+			err = o.err
+		case nAnsReq:
+			var o ansReqOut
+			o, ok = h.decAnsReq("handwritten", rc, data)
+			err = o.err
+		case nCliReq:
+			var o cliReqOut
+			o, ok = h.decCliReq("handwritten", rc, data)
+			err = o.err
+		case nCliResp:
+			var o cliRespOut
+			o, ok = h.decCliResp("handwritten", rc, data)
+			err = o.err
+		}
+		if ok {
+			h.judge(c.msg, wantReject, c.feat, "handwritten", err, rc)
+			h.res.Obs("literal_witnesses", 1)
+		}
+	}
+}
+
 func TestVerifC12(t *testing.T) {
 	res := vlib.NewResult("C12", "api-c12", "six broker messages x three laws: (1) PRNG field values (valid UTF-8 incl. quotes, NULs, astral, 0-64 KiB; int extremes; optional members empty/present) through the real encoders and back, compared with a table of documented defaults; (2) hand-written JSON from an own writer (member order, whitespace, escape style, unknown members; absent/null/empty/wrong-typed members), every valid base followed by all single-forbidden-feature variants, which must error; (3) arbitrary bytes, token soup, every JSON kind at top level and in every member, deep nesting, huge numbers, mutated and truncated valid messages offered to all 8 decoders under a panic guard, accepted values checked against the forbidden list. Non-trivial = a round trip that was accepted, or a reject-law case with exactly one forbidden feature; distinct by (message, feature, hash of the bytes)")
 	defer res.Finish()
@@ -200,6 +257,10 @@ func TestVerifC12(t *testing.T) {
 		return c
 	}
 	h.mine = mine
+
+	// minimal literal witnesses of every forbidden feature first, so that the
+	// replay kept for a signature is the smallest message showing it
+	h.literals()
 
 	// law 1
 	nRT := vlib.Scale(5000, 100000)
@@ -271,6 +332,7 @@ func TestVerifC12(t *testing.T) {
 	} {
 		res.RequireObs(k, 1)
 	}
+	res.RequireObs("literal_witnesses", 15)
 	res.RequireObs("reject_law_cases", int64(nHand*200))
 	for _, name := range []string{nPollReq, nPollResp, nAnsReq, nAnsResp, nCliReq, nCliResp} {
 		res.RequireObs("totality_value:"+name, 1)
